@@ -140,6 +140,13 @@ const PROBES = [
     override: null,
   },
   {
+    // a call that throws (Date) after a named type that refers back to it was completed inside it
+    id: "throwing-call-with-completed-dependents",
+    text: "type Post = { author: Author; publishedAt: Date };\ntype Author = { posts: Post[]; name: string };\ntype Comment = { by: Author; text: string };\ntype Plain = { n: number };\nexport const Parsers = parse.buildParsers<{ PP: Post; PA: Author; PC: Comment; PN: Plain }>();\n",
+    set: ["PP", "PA", "PC", "PN"],
+    override: null,
+  },
+  {
     // one undocumented named type reached through differently documented references
     id: "documented-references-to-one-type",
     text: 'type Money = { amount: number; currency: string };\ntype Tree = { v: Money; kids: Tree[] };\ntype Invoice = {\n  /** Price of the item. */\n  price: Money };\ntype Refund = {\n  /** Amount paid back. */\n  refund: Money; t?: Tree };\ntype Total = { total: Money };\nexport const Parsers = parse.buildParsers<{ PI: Invoice; PR: Refund; PT: Total }>();\n',
